@@ -30,6 +30,11 @@ def skipCovered (p : Prefix) (last : Bytes) : List (Key × Obj) → Bytes → Re
       | some (true, mp) => if mp == last then skipCovered p last rest k else .ok (nm, true)
       | _ => .ok (nm, true)
 
+/-- `response.AddPrefix(mp)` (de-duplicated) or `response.Add(content)` -/
+def addEntry (acc : ObjectList) (cp : Bool) (mp : Bytes) (c : Content) : ObjectList :=
+  if cp then (if acc.prefixes.contains mp then acc else { acc with prefixes := acc.prefixes ++ [mp] })
+  else { acc with contents := acc.contents ++ [c] }
+
 /-- the `for iter.Next()` loop of `ListBucket` over the objects that follow the marker -/
 def listLoop (p : Prefix) (maxKeys : Int) :
     List (Key × Obj) → (cnt : Int) → (last : Bytes) → ObjectList → Res ObjectList
@@ -44,9 +49,7 @@ def listLoop (p : Prefix) (maxKeys : Int) :
         if d.marker then listLoop p maxKeys rest cnt last acc
         else if cp && mp == last then listLoop p maxKeys rest cnt last acc
         else
-          let acc' : ObjectList :=
-            if cp then (if acc.prefixes.contains mp then acc else { acc with prefixes := acc.prefixes ++ [mp] })
-            else { acc with contents := acc.contents ++ [⟨k, d.body.length, d.hash⟩] }
+          let acc' : ObjectList := addEntry acc cp mp ⟨k, d.body.length, d.hash⟩
           let last' := if cp then mp else last
           let cnt' := cnt + 1
           if maxKeys > 0 ∧ cnt' ≥ maxKeys then
